@@ -9,6 +9,8 @@ import Kingdon.Model.Codegen
 import Kingdon.Model.OpDict
 import Kingdon.Model.KPoly
 import Kingdon.Model.Construct
+import Kingdon.Model.Graph
+import Kingdon.Model.Api
 open Kingdon
 
 def hexDigit? (ch : Char) : Option Nat :=
@@ -93,6 +95,69 @@ def renderErr : Con.Err → String
   | .typeError => "raise:TypeError"
   | .keyError => "raise:KeyError"
 
+/-! graph protocol: prefix token stream  L<n> | T<n> | F | a:<text> | m:<keys>:<vals> | A:<keys>:<v,v;v,v> -/
+partial def parseSubj : List String → Option (Graph.Subj Int × List String)
+  | [] => none
+  | tok :: rest =>
+    if tok.startsWith "a:" then some (.atom (tok.drop 2).toString, rest)
+    else if tok == "F" then (parseSubj rest).map fun (x, r) => (.thunk x, r)
+    else if tok.startsWith "L" || tok.startsWith "T" then
+      match (tok.drop 1).toString.toNat? with
+      | none => none
+      | some n =>
+        let rec go (n : Nat) (toks : List String) (acc : List (Graph.Subj Int)) : Option (List (Graph.Subj Int) × List String) :=
+          match n with
+          | 0 => some (acc.reverse, toks)
+          | n + 1 => match parseSubj toks with
+            | none => none
+            | some (x, r) => go n r (x :: acc)
+        (go n rest []).map fun (xs, r) => (.seq (tok.startsWith "T") xs, r)
+    else match tok.splitOn ":" with
+      | ["m", ks, vs] => do
+        let ks ← parseNatList ks; let vs ← parseIntList vs
+        some (.mv ks vs, rest)
+      | ["A", ks, es] => do
+        let ks ← parseNatList ks
+        let es ← (if es == "" then some [] else (es.splitOn ";").mapM parseIntList)
+        some (.mvArr ks es, rest)
+      | _ => none
+
+partial def parseSubjs (toks : List String) (acc : List (Graph.Subj Int)) : Option (List (Graph.Subj Int)) :=
+  match toks with
+  | [] => some acc.reverse
+  | _ => match parseSubj toks with
+    | none => none
+    | some (x, r) => parseSubjs r (x :: acc)
+
+partial def renderPayload : Graph.Payload Int → String
+  | .atom s => "a:" ++ s
+  | .mv vals keys => "{" ++ joinC (vals.map toString) ++ "|" ++ (match keys with | none => "-" | some ks => joinC (ks.map toString)) ++ "}"
+  | .seq xs => "[" ++ String.intercalate " " (xs.map renderPayload) ++ "]"
+
+/-! call-binary protocol: prefix tokens  L<n> | T<n> | F | v:<name> | n:<int>;  leaves are symbolic names -/
+partial def parseOperand : List String → Option (Api.Operand String × List String)
+  | [] => none
+  | tok :: rest =>
+    if tok.startsWith "v:" then some (.mv (tok.drop 2).toString, rest)
+    else if tok.startsWith "n:" then ((tok.drop 2).toString.toInt?).map fun n => (.num n, rest)
+    else if tok == "F" then (parseOperand rest).map fun (x, r) => (.thunk x, r)
+    else if tok.startsWith "L" || tok.startsWith "T" then
+      match (tok.drop 1).toString.toNat? with
+      | none => none
+      | some n =>
+        let rec go (n : Nat) (toks : List String) (acc : List (Api.Operand String)) : Option (List (Api.Operand String) × List String) :=
+          match n with
+          | 0 => some (acc.reverse, toks)
+          | n + 1 => match parseOperand toks with
+            | none => none
+            | some (x, r) => go n r (x :: acc)
+        (go n rest []).map fun (xs, r) => (.seq (tok.startsWith "T") xs, r)
+    else none
+
+partial def renderResult : Api.Result String → String
+  | .mv x => x
+  | .seq t xs => (if t then "(" else "[") ++ String.intercalate " " (xs.map renderResult) ++ (if t then ")" else "]")
+
 def renderMV (x : MV Poly) : String :=
   let x := x.filter fun (_, p) => !p.isZero
   let ks := (x.map (·.1)).eraseDups.mergeSort
@@ -167,6 +232,32 @@ def step (line : String) : String :=
     | some c, some gs, some kx => renderMV (gradeSel c gs (symMV 0 kx))
     | _, _, _ => "bad-op"
   | "kpoly" :: prog => KP.runProgram prog
+  | ["eps", cs] =>
+    -- orientation of every stored name relative to ascending bit order, and the bit-ordered signature
+    match parseCfg cs with
+    | none => "bad-op"
+    | some c => "sigbits=" ++ joinC (c.sigBits.map toString) ++ " eps=" ++
+        joinC ((List.range (2 ^ c.d)).map fun I => toString (eps c.sigBits (c.wordOf (c.nameOf I))))
+  | "callbin" :: toks =>
+    match parseOperand toks with
+    | some (a, rest) =>
+      match parseOperand rest with
+      | some (b, []) => renderResult (Api.callBinary (fun x y => s!"f({x},{y})") (fun n => s!"s{n}") a b)
+      | _ => "bad-op"
+    | none => "bad-op"
+  | "graph" :: cs :: toks =>
+    match parseCfg cs, parseSubjs toks [] with
+    | some c, some raw => String.intercalate " " ((Graph.subjects c.canonKeys (Graph.preSubjects raw)).map renderPayload)
+    | _, _ => "bad-op"
+  | "graphleaves" :: cs :: toks =>
+    match parseCfg cs, parseSubjs toks [] with
+    | some c, some raw =>
+      String.intercalate ";" ((Graph.leavesList c.canonKeys (Graph.preSubjects raw)).map fun d => joinC (d.map toString))
+    | _, _ => "bad-op"
+  | ["drag", cs, ks, old, new] =>
+    match parseCfg cs, parseNatList ks, parseIntList old, parseIntList new with
+    | some c, some ks, some old, some new => joinC ((Graph.dragOne c.canonKeys ks old new).map toString)
+    | _, _, _, _ => "bad-op"
   | ["construct", cs, g, vals, keys, name, grades, items] =>
     let grades' := if grades.startsWith "C:" then
         match parseCfg cs with
